@@ -11,13 +11,13 @@ SomeConfigs == {[consts |-> cs, params |-> ps] :
 
 EmitCase == phase = "end" =>
     PrintT(<<"CASE", ToJson([b |-> Str(body), consts |-> cfg.consts, params |-> cfg.params,
-                             labelok |-> LabelOK(body), nodup |-> NoDup(body, cfg),
-                             e402 |-> SetToSeq(R402(body, cfg)),
-                             e422 |-> SetToSeq(R422(body, cfg)),
+                             labelok |-> MLabelOK(body), nodup |-> MNoDup(body, cfg),
+                             e402 |-> SetToSeq(MR402(body, cfg)),
+                             e422 |-> SetToSeq(MR422(body, cfg)),
                              e424 |-> SetToSeq(R424(cfg)),
                              e423 |-> SetToSeq(R423(cfg)),
-                             e482first |-> SetToSeq(R482first(body, cfg)),
-                             baduses |-> SetToSeq(BadUses(body, cfg)),
-                             ok |-> RuleAcceptsVars(body, cfg),
+                             e482first |-> SetToSeq(MR482first(body, cfg)),
+                             baduses |-> SetToSeq(MBadUses(body, cfg)),
+                             ok |-> MRuleAcceptsVars(body, cfg),
                              m482 |-> SetToSeq(alg.e482)])>>)
 ============================================================================
